@@ -69,6 +69,9 @@ def worker(case):
     s = core.sdn()
     from spydrnet.uniquify import uniquify
 
+    if variant == "other-policy-in-force":
+        # the design was built under DEFAULT; the process default is EDIF while the transformation runs
+        core.sdn().namespace_manager.default = "EDIF"
     if variant in EDIF_VARIANTS:
         for l in n.libraries:
             l["EDIF.identifier"] = "ID_" + l.name
@@ -148,6 +151,7 @@ def cases(tier):
             out.append((desc, "asc", "edif-identifiers-taken"))
             out.append((desc, "asc", "edif-identifiers-long"))
             out.append((desc, "asc", "edif-identifiers-nameless"))
+            out.append((desc, "asc", "other-policy-in-force"))
     return out
 
 
